@@ -99,9 +99,10 @@ Definition apply_emit (k : kind) (bs : list Z) (m : emode) (d : Z) (v : hval) : 
 (* what a dropped emission adds to cardinalityDrops / unknownSeriesEmits /
    staleHandleEmits: the delta for counters, 1 for gauges and histograms *)
 Definition weight (k : kind) (d : Z) : Z := match k with KCounter => d | _ => 1 end.
-(* the scalar in which an emission that lands in a series is visible *)
+(* the scalar of a series shown in the observations: counter value, gauge value, histogram count
+   (for counters and histograms it counts the landed emissions by weight; a gauge value does not) *)
 Definition measure (k : kind) (v : hval) : Z :=
-  match k with KCounter => v_main v | KGauge => 0 | KHist => v_cnt v end.
+  match k with KCounter => v_main v | KGauge => v_main v | KHist => v_cnt v end.
 
 (* ------------------------------------------------------------------ state *)
 Record handle := { h_tuple : tuple; h_val : hval; h_stale : bool;
@@ -519,3 +520,125 @@ Definition rsys_step (v : variant) (x : rsys) (i : nat) : rsys :=
 Definition rrun_sched (v : variant) (x : rsys) (sched : list nat) : rsys := fold_left (rsys_step v) sched x.
 Definition rdone_all (x : rsys) : bool :=
   forallb (fun th => match rt_pc th with RPDone _ => true | _ => false end) (rths x).
+
+(* ------------------------------------------------------------------ subscribers, tick and snapshot as threads *)
+(* The extended machine runs the metric clients of [tstep] UNCHANGED next to auxiliary threads that subscribe,
+   unsubscribe, tick, snapshot and drain.  A client that has just landed an emission in a series then performs the
+   three atomic steps of markDirty (subscriberCount.Load / dirty.Load / dirty.CompareAndSwap) before it goes on.
+   Auxiliary steps have no access to writing the metric state (by the type of [xstep_aux]). *)
+Record sshared := { ss_subs : list sub; ss_dirty : bool; ss_nsubs : Z }.
+Definition sshared0 : sshared := {| ss_subs := []; ss_dirty := false; ss_nsubs := 0 |}.
+(* how Subscription.publish sends: the code uses select/default; BlockingSend is the hypothetical `ch <- u` *)
+Inductive sendmode := SelectDefault | BlockingSend.
+Inductive mpc := MNone | M1 | M2 | M3.
+Inductive sop := SSubscribe (buf : Z) | SUnsubscribe (k : nat) | STick | SSnapshot | SDrain (k n : nat).
+Inductive spc :=
+| SIdle
+| SSub1                                   (* subscriberCount.Add(1), after subscribers.Store *)
+| SUn1 (k : nat)                          (* subscribers.Delete *)
+| SUn2                                    (* subscriberCount.Add(-1) *)
+| STk1                                    (* series.Range starts: which series exist now *)
+| STk2 (ids : list nat) (n : nat)         (* load the value of one series; n samples collected so far *)
+| STk3 (n : nat)                          (* subscribers.Range: which subscribers exist now *)
+| STk4 (work : list nat)                  (* one Subscription.publish, to subscriber [hd work] *)
+| SSn2 (ids : list nat) (acc : list (tuple * hval)).   (* AppendSnapshot: load the value of one series *)
+Record auxthread := { a_pc : spc; a_prog : list sop; a_snaps : list (list (tuple * hval)) (* newest first *) }.
+Definition auxthread0 (p : list sop) : auxthread := {| a_pc := SIdle; a_prog := p; a_snaps := [] |}.
+Definition afinished (a : auxthread) : bool := match a_pc a, a_prog a with SIdle, [] => true | _, _ => false end.
+
+Definition set_subs (ss : sshared) (l : list sub) : sshared := {| ss_subs := l; ss_dirty := ss_dirty ss; ss_nsubs := ss_nsubs ss |}.
+Definition set_dirty (ss : sshared) (b : bool) : sshared := {| ss_subs := ss_subs ss; ss_dirty := b; ss_nsubs := ss_nsubs ss |}.
+Definition set_nsubs (ss : sshared) (n : Z) : sshared := {| ss_subs := ss_subs ss; ss_dirty := ss_dirty ss; ss_nsubs := n |}.
+Definition agoto (a : auxthread) (p : spc) : auxthread := {| a_pc := p; a_prog := a_prog a; a_snaps := a_snaps a |}.
+
+Definition sub_full (b : sub) : bool := negb (sb_len b <? sb_cap b)%nat.
+Definition live_sub_indices (l : list sub) : list nat :=
+  flat_map (fun ib => if sb_unsub (snd ib) then [] else [fst ib]) (combine (seq 0 (length l)) l).
+
+(* one atomic step of an auxiliary thread; None = the step is not enabled (the thread is blocked) *)
+Definition xstep_aux (mode : sendmode) (s : shared) (ss : sshared) (a : auxthread) : option (sshared * auxthread) :=
+  match a_pc a with
+  | SIdle =>
+      match a_prog a with
+      | [] => Some (ss, a)
+      | o :: rest =>
+          let a := {| a_pc := SIdle; a_prog := rest; a_snaps := a_snaps a |} in
+          match o with
+          | SSubscribe buf => Some (set_subs ss (ss_subs ss ++ [sub_new buf]), agoto a SSub1)
+          | SUnsubscribe k =>                      (* unsubscribed.Swap(true) *)
+              match nth_error (ss_subs ss) k with
+              | Some b => if sb_unsub b then Some (ss, a)
+                          else Some (set_subs ss (upd_nth (ss_subs ss) k sub_unsub), agoto a (SUn1 k))
+              | None => Some (ss, a)
+              end
+          | STick =>                               (* swapDirty *)
+              if ss_dirty ss then Some (set_dirty ss false, agoto a STk1) else Some (ss, a)
+          | SSnapshot => Some (ss, agoto a (SSn2 (map snd (smap s)) []))
+          | SDrain k n =>
+              match nth_error (ss_subs ss) k with
+              | Some b => Some (set_subs ss (upd_nth (ss_subs ss) k (fun b => fst (sub_drain n b))), a)
+              | None => Some (ss, a)
+              end
+          end
+      end
+  | SSub1 => Some (set_nsubs ss (ss_nsubs ss + 1), agoto a SIdle)
+  | SUn1 k => Some (ss, agoto a SUn2)
+  | SUn2 => Some (set_nsubs ss (ss_nsubs ss - 1), agoto a SIdle)
+  | STk1 => Some (ss, agoto a (STk2 (map snd (smap s)) 0))
+  | STk2 [] n => Some (ss, agoto a (STk3 n))
+  | STk2 (id :: r) n => Some (ss, agoto a (STk2 r (match get_handle s id with Some _ => S n | None => n end)))
+  | STk3 n => Some (ss, agoto a (STk4 (flat_map (fun _ => live_sub_indices (ss_subs ss)) (seq 0 n))))
+  | STk4 [] => Some (ss, agoto a SIdle)
+  | STk4 (k :: r) =>
+      match nth_error (ss_subs ss) k with
+      | Some b =>
+          match mode with
+          | BlockingSend => if negb (sb_unsub b) && sub_full b then None      (* ch <- u on a full channel: blocked *)
+                            else Some (set_subs ss (upd_nth (ss_subs ss) k sub_publish), agoto a (STk4 r))
+          | SelectDefault => Some (set_subs ss (upd_nth (ss_subs ss) k sub_publish), agoto a (STk4 r))
+          end
+      | None => Some (ss, agoto a (STk4 r))
+      end
+  | SSn2 [] acc => Some (ss, {| a_pc := SIdle; a_prog := a_prog a; a_snaps := rev acc :: a_snaps a |})
+  | SSn2 (id :: r) acc =>
+      Some (ss, agoto a (SSn2 r (match get_handle s id with Some h => (h_tuple h, h_val h) :: acc | None => acc end)))
+  end.
+
+(* a metric client with its markDirty continuation *)
+Definition lands (s : shared) (th : thread) : bool :=
+  match t_pc th with PE1 id _ _ => match get_handle s id with Some _ => true | None => false end | _ => false end.
+Definition xstep_client (c : cfg) (s : shared) (ss : sshared) (cl : thread * mpc) : shared * sshared * (thread * mpc) :=
+  let (th, m) := cl in
+  match m with
+  | MNone => if finished th then (s, ss, cl) else
+             let l := lands s th in
+             let (s', th') := tstep c s th in (s', ss, (th', if l then M1 else MNone))
+  | M1 => (s, ss, (th, if ss_nsubs ss =? 0 then MNone else M2))          (* registry.subscriberCount.Load() == 0 *)
+  | M2 => (s, ss, (th, if ss_dirty ss then MNone else M3))               (* dirty.Load() *)
+  | M3 => (s, set_dirty ss true, (th, MNone))                             (* dirty.CompareAndSwap(false, true) *)
+  end.
+
+Record xsys := { x_sh : shared; x_ss : sshared; x_cl : list (thread * mpc); x_aux : list auxthread }.
+Definition xsys0 (progs : list (list op)) (aprogs : list (list sop)) : xsys :=
+  {| x_sh := shared0; x_ss := sshared0; x_cl := map (fun p => (thread0 p, MNone)) progs; x_aux := map auxthread0 aprogs |}.
+(* schedule element: (true, i) = client i, (false, j) = auxiliary thread j; a disabled or finished thread stutters *)
+Definition xsys_step (c : cfg) (mode : sendmode) (x : xsys) (e : bool * nat) : xsys :=
+  let (is_client, i) := e in
+  if is_client then
+    match nth_error (x_cl x) i with
+    | Some cl => let '(s', ss', cl') := xstep_client c (x_sh x) (x_ss x) cl in
+                 {| x_sh := s'; x_ss := ss'; x_cl := upd_nth (x_cl x) i (fun _ => cl'); x_aux := x_aux x |}
+    | None => x
+    end
+  else
+    match nth_error (x_aux x) i with
+    | Some a => match xstep_aux mode (x_sh x) (x_ss x) a with
+                | Some (ss', a') => {| x_sh := x_sh x; x_ss := ss'; x_cl := x_cl x; x_aux := upd_nth (x_aux x) i (fun _ => a') |}
+                | None => x
+                end
+    | None => x
+    end.
+Definition xrun (c : cfg) (mode : sendmode) (x : xsys) (sched : list (bool * nat)) : xsys := fold_left (xsys_step c mode) sched x.
+Definition xclients_done (x : xsys) : bool :=
+  forallb (fun cl => finished (fst cl) && match snd cl with MNone => true | _ => false end) (x_cl x).
+Definition metric_of (x : xsys) : sys := {| sh := x_sh x; ths := map fst (x_cl x) |}.
